@@ -311,9 +311,43 @@ pub fn all_schemas(small: bool) -> Vec<Value> {
     v
 }
 
+/// `$ref` chains: a definition that is only a `$ref` to the next one (d0 -> d1 -> .. -> target), with two
+/// slots of a container (required properties p,q / a closed 2-tuple) each referring to any link of
+/// the chain — every combination, so heads and inner links are used once, twice, or mixed
+pub fn ref_chain_schemas() -> Vec<Value> {
+    let targets = [
+        json!({"type": "object", "properties": {"x": {"type": "boolean"}}, "required": ["x"], "additionalProperties": false}),
+        json!({"enum": ["u", "v"]}),
+        json!({"type": "integer", "minimum": 1, "maximum": 3}),
+    ];
+    let mut out = vec![];
+    for target in targets.iter() {
+        for len in 2..=3usize {
+            let mut defs = serde_json::Map::new();
+            for i in 0..len {
+                defs.insert(format!("d{i}"), json!({"$ref": format!("#/$defs/d{}", i + 1)}));
+            }
+            defs.insert(format!("d{len}"), target.clone());
+            for a in 0..=len {
+                for b in 0..=len {
+                    let (ra, rb) = (json!({"$ref": format!("#/$defs/d{a}")}), json!({"$ref": format!("#/$defs/d{b}")}));
+                    out.push(json!({"$defs": defs, "type": "object", "properties": {"p": ra, "q": rb}, "required": ["p", "q"], "additionalProperties": false}));
+                    if (a + b) % 2 == 0 {
+                        out.push(json!({"$defs": defs, "type": "array", "prefixItems": [ra, rb], "items": false, "minItems": 2}));
+                    }
+                }
+            }
+            // head of the chain at the root
+            out.push(json!({"$defs": defs, "$ref": "#/$defs/d0"}));
+        }
+    }
+    out
+}
+
 /// all_schemas plus the pairwise intersection family
 pub fn all_schemas_x(small: bool) -> Vec<Value> {
     let mut v = all_schemas(small);
     v.extend(intersection_schemas(small));
+    v.extend(ref_chain_schemas());
     v
 }
